@@ -540,7 +540,44 @@ def default_argv_probe():
     return []
 
 
+def odd_inputs_probe():
+    """Two unusual but accepted inputs: (1) an optional-value option that is not multi-valued but whose default is a list,
+    given without a value - the parse hands out that default and must not rewrite the format's own list; (2) an argv list
+    with a bytes item - wrapping it must not rewrite the caller's list."""
+    import copy
+    from clikit.api.args.format import ArgsFormat, Option
+    from clikit.args import ArgvArgs
+    from clikit.args.default_args_parser import DefaultArgsParser
+    vs = []
+    try:
+        for flags, default in ((Option.OPTIONAL_VALUE, [80, 443]), (Option.OPTIONAL_VALUE | Option.INTEGER, ["80", "7"])):
+            opt = Option("ports", "p", flags, default=default)
+            fmt = ArgsFormat([opt])
+            before = copy.deepcopy(opt.default)
+            for lenient in (False, True):
+                try:
+                    DefaultArgsParser().parse(ArgvArgs(["prog", "--ports"]), fmt, lenient)
+                except ValueError:
+                    pass
+                if opt.default != before or [type(x) for x in opt.default] != [type(x) for x in before]:
+                    vs.append(report.viol("format-altered:option-default", "parsing a bare optional-value option rewrote the default list of the "
+                                          "format's option", {"probe": "odd-inputs"}, before, opt.default))
+                    break
+        argv = ["prog", b"--port", "80"]
+        mine = list(argv)
+        ArgvArgs(argv)
+        if argv != mine or [type(x) for x in argv] != [type(x) for x in mine]:
+            vs.append(report.viol("argv-altered:wrap:bytes-item", "ArgvArgs(argv) altered the caller's list (a bytes item)", {"probe": "odd-inputs"},
+                                  [repr(x) for x in mine], [repr(x) for x in argv]))
+    except Exception as e:  # noqa
+        vs.append(report.viol("crash:" + report.exc_site(e), "odd-inputs probe raised %r" % (e,), {"probe": "odd-inputs"}))
+    return vs
+
+
 def replay(case):
+    if isinstance(case, dict) and case.get("probe") == "odd-inputs":
+        vs = odd_inputs_probe()
+        return vs[0] if vs else None
     if isinstance(case, dict) and case.get("probe") == "default-argv":
         vs = default_argv_probe()
         return vs[0] if vs else None
@@ -625,6 +662,7 @@ def main():
     outcomes = collections.Counter("ok" if "ok" in o else o["raised"] for o in table.values())
 
     rep.merge(default_argv_probe())
+    rep.merge(odd_inputs_probe())
     rep.part("default-argv-probe", what="ArgvArgs() over the process's own sys.argv (a list), wrapped and parsed three times: sys.argv unchanged, "
                                         "same script name and tokens every time")
     spec = Spec(core + [extra], table)
